@@ -314,14 +314,14 @@ def native_cases(lib_fnv):
         ver = "None" if p["version"] is None else "(Some (%d, %d, %d)%%N)" % p["version"]
         return f"(mkpol {caps} {ck} {ver})"
 
-    def add(name, flags, route, p, declares, embedded=False, ck_ok=True, imp="sentry", alias=None):
+    def add(name, flags, route, p, declares, embedded=False, ck_ok=True, imp="sentry", alias=None, symbol=False):
         fl = "[" + "; ".join('"%s"' % x for x in flags) + "]"
         man = "None" if p is None else f'(Some [("{p.get("key") or "sentry"}", {coq_pol(p, ck_ok)})])'
         r = {"source": "RSource", "aasm": "RAasm", "avbc-plain": "RAvbc", "avbc-bundled": "RAvbc"}[route]
         project, emb = (man, "None") if not embedded else ("None", man)
         path = "[" + "; ".join('"%s"' % seg for seg in imp.split(".")) + "]"
         q = f'({fl}, {r}, {project}, {emb}, {path}, mkfile [[1; 2]; [3]]%N (Some (0, 1, 0)%N))'
-        C.append({"name": name, "flags": flags, "route": route, "policy": p, "declares": declares, "query": q, "import": imp, "alias": alias})
+        C.append({"name": name, "flags": flags, "route": route, "policy": p, "declares": declares, "query": q, "import": imp, "alias": alias, "symbol": symbol})
 
     add("no-manifest", [], "source", None, None)
     add("caps-no-flags", [], "source", pol(["danger"]), None)
@@ -362,6 +362,14 @@ def native_cases(lib_fnv):
     # round 4: a manifest that does not deserialize must not mean "no policy"
     add("unparsable-manifest-caps-denied", ["--deny-caps=danger"], "source", pol(["danger"], raw="checksum = 12345\n"), "unparsable-manifest")
     add("unparsable-manifest-aasm", ["--deny-caps=danger"], "aasm", pol(["danger"], raw="required_version = 7\n"), "unparsable-manifest")
+    # the selected-symbol dotted spelling `needs mod.symbol` / `needs dir.mod.symbol` (rewritten by the loader into a selective import):
+    # every policy class must hold for it as for the whole-module spelling
+    for imp, tag in (("sentry", "symbol"), ("libs.sentry", "dotted-symbol"), ("libs.deep.sentry", "dotted2-symbol")):
+        add(f"{tag}-caps-denied", ["--deny-caps=danger"], "source", pol(["danger"]), "denied-capability", imp=imp, symbol=True)
+        add(f"{tag}-std-cap-off", [], "source", pol(["fs"]), "std-capability-off", imp=imp, symbol=True)
+        add(f"{tag}-checksum-wrong", [], "source", pol([], "0000000000000000"), "different-checksum", ck_ok=False, imp=imp, symbol=True)
+        add(f"{tag}-version-unsatisfied", [], "source", pol([], None, (9, 0, 0)), "unsatisfied-version", imp=imp, symbol=True)
+        add(f"{tag}-all-ok", ["--allow-caps=danger"], "source", pol(["danger"], ok_ck, (0, 1, 0)), None, imp=imp, symbol=True)
     add("sentry-alias-version-unsatisfied", [], "source", pol([], None, (9, 0, 0)), "unsatisfied-version", alias="sn")
     add("aasm-caps-denied", ["--deny-caps=danger"], "aasm", pol(["danger"]), "denied-capability")
     add("aasm-checksum-wrong", [], "aasm", pol([], "0000000000000000"), "different-checksum", ck_ok=False)
@@ -404,7 +412,10 @@ def run_native(ctx, cli, lib, root, stats):
         sub = os.path.join(d, *imp.split(".")[:-1])
         os.makedirs(sub, exist_ok=True)
         shutil.copy(lib, os.path.join(sub, "libsentry.so"))
-        open(os.path.join(d, "main.aelys"), "w").write(f"needs {imp}" + (f" as {alias}" if alias else "") + f"\n{alias or 'sentry'}.touch()\n")
+        if c.get("symbol"):
+            open(os.path.join(d, "main.aelys"), "w").write(f"needs {imp}.touch\ntouch()\n")
+        else:
+            open(os.path.join(d, "main.aelys"), "w").write(f"needs {imp}" + (f" as {alias}" if alias else "") + f"\n{alias or 'sentry'}.touch()\n")
         target = os.path.join(d, "main.aelys")
         run_dir = d
         if c["route"] == "avbc-bundled":
@@ -443,7 +454,7 @@ def run_native(ctx, cli, lib, root, stats):
         # direct oracle: what the statement forbids
         if c["declares"] and (loaded or called):
             ctx.violation(f"native-module-{'run' if called else 'loaded'}:{c['route']}:{c['declares']}",
-                          f"native module with {c['declares']} in the project manifest, imported as `needs {c.get('import', 'sentry')}"
+                          f"native module with {c['declares']} in the project manifest, imported as `needs {c.get('import', 'sentry')}{'.touch' if c.get('symbol') else ''}"
                           f"{' as ' + c['alias'] if c.get('alias') else ''}`, route {c['route']}, flags {c['flags']}: "
                           f"outcome {cls}, library loaded={loaded}, export called={called}",
                           {"case": c["name"], "import": c.get("import", "sentry"), "alias": c.get("alias"), "flags": c["flags"], "route": c["route"], "manifest": manifest_toml(c["policy"]),
